@@ -14,7 +14,7 @@ def CTX(**over):
     f = dict(
         env=ENV, template=TEMPLATE, scope=SCOPE, loops=ListOf("any"), loop_iteration_carry=Int,
         local_namespace_carry=Int, _copy_depth=Int, locals=DictOf("str", "any"), counters=DictOf("str", "int"),
-        globals=Any_, disabled_tags=Any_, parent=Any_, auto_escape=Bool,
+        globals=Any_, root_globals=Any_, disabled_tags=Any_, parent=Any_, auto_escape=Bool,
         tag_namespace=Opaque(lambda ex, name: HDict(concrete={
             "cycles": DictOf("int", "int").fresh(ex, f"{name}.cycles", True),
             "stopindex": DictOf("str", "int").fresh(ex, f"{name}.stopindex", True),
